@@ -36,6 +36,26 @@ CLI_FILES = [
 ]
 
 
+
+def spans_backward_jump(seg):
+    """Structural label (never a verdict): the anchor's raw tokens do not run forward in the source -- it spans two
+    iterations of a template loop (or a token whose source slice is inverted)."""
+    if seg is None:
+        return False
+    prev = None
+    try:
+        for r in seg.raw_segments:
+            pm = r.pos_marker
+            if pm is None:
+                continue
+            ss = pm.source_slice
+            if ss.start > ss.stop or (prev is not None and ss.start < prev):
+                return True
+            prev = ss.start
+    except Exception:
+        return False
+    return False
+
 def cases(tier):
     out = fixfam.fix_cases(tier, rulesets_raw=("all",), rulesets_yaml=("all",))
     ml = 32 if tier == "quick" else 44
@@ -69,7 +89,7 @@ def check_lf(lf, src_raw, add, res):
             nt = True
             sp, ep = d["start_file_pos"], d["end_file_pos"]
             if not (0 <= sp <= ep <= len(src)):
-                add("offset_bounds", {"code": code}, {"start": sp, "end": ep, "len": len(src)})
+                add("offset_bounds", {"code": code, "anchor_spans_backward_source_jump": spans_backward_jump(getattr(v, "segment", None))}, {"start": sp, "end": ep, "len": len(src)})
                 continue
             if linecol(src, sp) != (ln, lp):
                 add("start_offset_vs_linecol", {"code": code}, {"offset": sp, "model": linecol(src, sp), "reported": [ln, lp]})
@@ -78,7 +98,7 @@ def check_lf(lf, src_raw, add, res):
             seg = getattr(v, "segment", None)
             if seg is not None and seg.pos_marker is not None and seg.pos_marker.is_literal() and seg.raw and code not in ("PRS",):
                 if src[sp:ep] != seg.raw:
-                    add("anchor_text", {"code": code}, {"source": src[sp:ep][:40], "anchor": seg.raw[:40]})
+                    add("anchor_text", {"code": code, "anchor_spans_backward_source_jump": spans_backward_jump(seg)}, {"source": src[sp:ep][:40], "anchor": seg.raw[:40]})
         for f in d.get("fixes", []) or []:
             if "start_file_pos" in f:
                 if linecol(src, f["start_file_pos"]) != (f["start_line_no"], f["start_line_pos"]):
